@@ -2,6 +2,7 @@ package main
 
 import (
 	"fmt"
+	"go/constant"
 	"go/token"
 	"go/types"
 	"strings"
@@ -36,6 +37,11 @@ func derivedFromErr(p *Prog, v, e ssa.Value, depth int, seen map[ssa.Value]bool)
 		}
 		switch y := x.(type) {
 		case *ssa.Call:
+			// formatting an error into the text of a new one does not keep its class: errors.Is on the result no longer
+			// finds the sentinel (github.com/pkg/errors.Errorf never wraps; fmt.Errorf wraps only with %w)
+			if formatsWithoutWrapping(y) {
+				continue
+			}
 			for _, a := range y.Common().Args {
 				if derivedFromErr(p, a, e, depth+1, seen) {
 					return true
@@ -285,6 +291,29 @@ func definitelyNonNilError(v ssa.Value) bool {
 	case *ssa.UnOp:
 		if g := globalLoad(x); g != nil && strings.HasPrefix(g.Name(), "Err") {
 			return true
+		}
+	}
+	return false
+}
+
+// formatsWithoutWrapping: errors.New / pkg/errors.Errorf / pkg/errors.New, and fmt.Errorf with a constant format that
+// has no %w verb.
+func formatsWithoutWrapping(c *ssa.Call) bool {
+	sc := c.Common().StaticCallee()
+	if sc == nil || sc.Pkg == nil {
+		return false
+	}
+	pp := sc.Pkg.Pkg.Path()
+	switch {
+	case pp == "github.com/pkg/errors" && (sc.Name() == "Errorf" || sc.Name() == "New"):
+		return true
+	case pp == "errors" && sc.Name() == "New":
+		return true
+	case pp == "fmt" && sc.Name() == "Errorf":
+		if len(c.Common().Args) > 0 {
+			if k, ok := resolve(c.Common().Args[0]).(*ssa.Const); ok && k.Value != nil && k.Value.Kind() == constant.String {
+				return !strings.Contains(constant.StringVal(k.Value), "%w")
+			}
 		}
 	}
 	return false
